@@ -24,7 +24,9 @@ const rule = "sequential: rapid-drawn histories (8-60 steps) of put/delete with 
 	"latest insertion among equal numbers; iterator = all versions, key ascending, sequence descending, latest insertion first " +
 	"among equal numbers; immutable tables frozen; pool Get = newest table containing the key), audited after every step. " +
 	"concurrent: 150-700 writer steps, 1-8 readers doing Get/Contains/Seek/scan/full iteration, each observation must contain " +
-	"every entry completed before it started and only inserted entries, sorted, well-formed; race reports inside pkg/memtable fail. " +
+	"every entry completed before it started and only inserted entries, sorted, well-formed (one case in five instead drives a " +
+	"MemTablePool with table switches and judges concurrent pool Gets against the prefix states of the history); race reports " +
+	"inside pkg/memtable fail. " +
 	"non-trivial = sequential case with >= 2 versions of one key in one table whose sequence numbers are not increasing in " +
 	"insertion order (read back by the per-step audit), or concurrent case in which one reader was active while >= 100 writer " +
 	"steps completed (measured); distinct by FNV-64 of the case JSON"
